@@ -1,8 +1,6 @@
 (* C03 -- the request parser accepts exactly the request grammar and extracts it faithfully.
-   PARTIAL: acceptance (sound, complete, unique) and "proper prefixes need more input" are
-   proved; the mapping from malformed inputs to error categories is not stated as a separate
-   theorem -- the model's categories are what the correspondence run compares with the
-   implementation, element by element. *)
+   Acceptance (sound, complete, unique), "proper prefixes need more input", timeliness and the
+   rejection categories (first offending element, Spec/Rejections.v) are proved. *)
 From Coq Require Import String.
 From Http Require Import Model.Bytes Model.Utf8 Model.Num Model.Headers Model.Request
      Spec.HeaderGrammar Spec.ChunkedGrammar Spec.RequestGrammar
